@@ -331,9 +331,14 @@ func (gn *GlobalNode) validate() error {
 		return fmt.Errorf("%s cannot be negative: %d",
 			NumMinerDelegatesRewarded.String(), gn.NumMinerDelegatesRewarded)
 	}
-	if gn.NumShardersRewarded < 0 {
-		return fmt.Errorf("%s cannot be negative: %d",
+	if gn.NumShardersRewarded < 1 {
+		// the sharders' part of every block's fees and reward is divided by this number
+		return fmt.Errorf("%s must be positive: %d",
 			NumShardersRewarded.String(), gn.NumShardersRewarded)
+	}
+	if gn.Epoch < 1 {
+		// every block's round is taken modulo the epoch
+		return fmt.Errorf("%s must be positive: %d", Epoch.String(), gn.Epoch)
 	}
 	return nil
 }
